@@ -8,6 +8,8 @@ item = {pad: int (payload length), sync: bool, empty: bool}
 """
 from __future__ import annotations
 
+import json
+
 from harness.sim import Sim, patched
 
 
@@ -68,9 +70,14 @@ def run_scenario(sc, schedule=None, seed=0, max_points=60000):
         outcomes = {}
         nid = [0]
 
-        def mk_update(opid, pad):
+        def mk_update(opid, pad, ch="x"):
             return OperationUpdate(operation_id=opid, operation_type=OperationType.STEP, action=OperationAction.SUCCEED,
-                                   payload="x" * pad)
+                                   payload=ch * pad)
+
+        def wire_size(upd):
+            # the size of the update as the client serialises it (botocore's JSON serialiser: json.dumps with its
+            # default escaping), measured by the harness itself and not by the code under test
+            return 0 if upd is None else len(json.dumps(upd.to_dict()).encode("utf-8"))
 
         plan = []
         for pi, seq in enumerate(sc["producers"]):
@@ -79,8 +86,8 @@ def run_scenario(sc, schedule=None, seed=0, max_points=60000):
                 i = nid[0]
                 nid[0] += 1
                 opid = f"op{i}"
-                upd = None if it.get("empty") else mk_update(opid, it["pad"])
-                size = ExecutionState._calculate_operation_size(QueuedOperation(upd, None))
+                upd = None if it.get("empty") else mk_update(opid, it["pad"], it.get("ch", "x"))
+                size = wire_size(upd)
                 items[i] = {"size": size, "sync": bool(it["sync"]), "empty": upd is None, "opid": opid}
                 row.append((i, upd, bool(it["sync"])))
             plan.append(row)
@@ -377,7 +384,13 @@ def gen_scenario(rng, with_fault=False):
         for _ in range(rng.choice([1, 2, 3, 4])):
             r = rng.random()
             pad = rng.choice([0, 5, 40]) if r < 0.6 else rng.choice([100, 200, 250]) if r < 0.85 else rng.choice([400, 1200])
-            seq.append({"pad": pad, "sync": rng.random() < 0.55, "empty": rng.random() < 0.08})
+            it = {"pad": pad, "sync": rng.random() < 0.55, "empty": rng.random() < 0.08}
+            if rng.random() < 0.25:
+                # non-ASCII text (escaped on the wire: 6 bytes per UTF-16 unit) and, rarely, a lone surrogate as
+                # os.fsdecode produces for an undecodable file name
+                it["ch"] = rng.choice(["\u00e9", "\u65e5", "\u65e5", "\U0001f600", "\udcff"])
+                it["pad"] = pad // rng.choice([1, 3, 6])
+            seq.append(it)
         producers.append(seq)
     sc = {"cfg": cfg, "producers": producers, "fault": None, "stop": "end"}
     if with_fault:
